@@ -23,7 +23,7 @@ def step (base : Bool) (st : St) (j : Json) : Except String (St × String) := do
     let rate ← rat j "rate"
     let t ← rat j "t"
     pure ({ st with b := TB.new cap rate t }, "ok")
-  | "try" =>
+  | "try" | "tryreal" =>
     let t ← rat j "t"
     let (b', rel) := tryAcquire F st.b t
     pure ({ st with b := b' }, (if rel then "release " else "wait ") ++ showTB b')
